@@ -180,6 +180,17 @@ func (m *canaryReleaseManager) runCanary(c *RolloutContext) error {
 
 	case v1beta1.CanaryStepStateTrafficRouting:
 		klog.Infof("rollout(%s/%s) run canary strategy, and state(%s)", c.Rollout.Namespace, c.Rollout.Name, v1beta1.CanaryStepStateTrafficRouting)
+		// A partition-style step that releases all stable pods has restored the stable Service in CanaryStepStateInit
+		// (see the ingress-nginx bypass above) and skips this state; it must be skipped as well when the state is
+		// entered by a step jump or a changed plan, otherwise the stable Service is pinned to a revision without pods.
+		expectedReplicas, _ := intstr.GetScaledValueFromIntOrPercent(currentStep.Replicas, int(c.Workload.Replicas), true)
+		if expectedReplicas >= int(c.Workload.Replicas) && v1beta1.IsRealPartition(c.Rollout) {
+			canaryStatus.LastUpdateTime = &metav1.Time{Time: time.Now()}
+			canaryStatus.CurrentStepState = v1beta1.CanaryStepStateMetricsAnalysis
+			klog.Infof("rollout(%s/%s) step(%d) state from(%s) -> to(%s)", c.Rollout.Namespace, c.Rollout.Name,
+				canaryStatus.CurrentStepIndex, v1beta1.CanaryStepStateTrafficRouting, canaryStatus.CurrentStepState)
+			break
+		}
 		tr := newTrafficRoutingContext(c)
 		done, err := m.trafficRoutingManager.DoTrafficRouting(tr)
 		c.NewStatus.CanaryStatus.LastUpdateTime = tr.LastUpdateTime
